@@ -146,7 +146,7 @@ def extra_gen(repo, gen_dir, metas):
 
 HARNESS = os.path.join(VERIF, "harness", "c11.c")
 TYPES_QUICK = ["unsigned"]
-TYPES_THOROUGH = ["unsigned", "int", "float"]
+TYPES_THOROUGH = ["unsigned", "int", "unsigned short"]  # float elements: NaN != NaN makes "copied element equals the source element" fail for a reason that is not the container's (removed after a false alarm in the thorough tier)
 
 # (kernel, helper contracts to use instead of bodies, loop contracts?, extra flags)
 ENFORCE = [
